@@ -870,7 +870,7 @@ def run(ctx):
     check_session_results(ctx, res, sres)
     # (c) exhaustive small scope
     # a fingerprint drift / broken proof in the quick tier explores deeper, within the quick budget
-    maxlen = (9 if full else 7) if ctx.deep and not res.failed else 6
+    maxlen = (8 if full else 7) if ctx.deep and not res.failed else 6
     total, reached = exhaustive_limiter(ctx, res, maxlen)
     res['scopes']['exhaustive_limiter'] = {'max_ops': reached, 'initial_limits': [1, 2, 3],
                                            'streams': total, 'tail': f'{PROBES} probes + drain'}
